@@ -152,4 +152,123 @@ theorem fluxCoef_pos {κ m kB : ℝ} (hκ : 0 < κ) (hκ1 : κ ≤ 1) (hm : 0 < 
   have hs := Real.sqrt_pos.mpr this
   positivity
 
+/-! ### the lower part [123, 235] K of the liquid correlation -/
+
+/-- `exp 5 > 148.33` (from `e > 2.718`) -/
+theorem exp_five_gt : (148.33 : ℝ) < Real.exp 5 := by
+  have he : (2.718 : ℝ) < Real.exp 1 := by
+    have := Real.exp_one_gt_d9; linarith
+  have h5 : Real.exp 5 = Real.exp 1 ^ 5 := by
+    rw [← Real.exp_nat_mul]; norm_num
+  have hpow : (2.718 : ℝ) ^ 5 < Real.exp 1 ^ 5 := pow_lt_pow_left₀ he (by norm_num) (by norm_num)
+  rw [h5]; refine lt_trans ?_ hpow; norm_num
+
+/-- tangent bound `log T ≤ 4 + T/148.33` -/
+theorem log_le_tangent5 {T : ℝ} (hT : 0 < T) : Real.log T ≤ 4 + T / 148.33 := by
+  have hx := exp_five_gt
+  have hxp : 0 < Real.exp 5 := Real.exp_pos _
+  have h := Real.log_le_sub_one_of_pos (div_pos hT hxp)
+  rw [Real.log_div hT.ne' hxp.ne', Real.log_exp] at h
+  have : T / Real.exp 5 ≤ T / 148.33 := div_le_div_of_nonneg_left hT.le (by norm_num) hx.le
+  linarith
+
+theorem gLiq_lower_low {T : ℝ} (h1 : 123 ≤ T) (h2 : T ≤ 235) : -1.25 ≤ gLiq T := by
+  have hT : 0 < T := by linarith
+  have hl := log_le_tangent5 hT
+  have hq : -1.25 ≤ 53.878 - 1331.22 / T - 9.44523 * (4 + T / 148.33) + 0.014025 * T := by
+    have hm : 0 ≤ (T - 123) * (235 - T) := mul_nonneg (by linarith) (by linarith)
+    have e : 53.878 - 1331.22 / T - 9.44523 * (4 + T / 148.33) + 0.014025 * T + 1.25
+        = ((53.878 - 9.44523 * 4 + 1.25) * T - 1331.22 - (9.44523 / 148.33 - 0.014025) * T ^ 2) / T := by
+      field_simp; ring
+    have hn : 0 ≤ (53.878 - 9.44523 * 4 + 1.25) * T - 1331.22 - (9.44523 / 148.33 - 0.014025) * T ^ 2 := by
+      nlinarith
+    have := div_nonneg hn hT.le
+    linarith
+  unfold gLiq
+  nlinarith
+
+/-- on [123, 235] the first bracket grows by at least `0.1045 (T₂ − T₁)` -/
+theorem liqA_incr_low {T1 T2 : ℝ} (h1 : 123 ≤ T1) (h12 : T1 < T2) (h2 : T2 ≤ 235) :
+    0.1045 * (T2 - T1)
+      ≤ (6763.22 / T1 - 6763.22 / T2) - 4.210 * (Real.log T2 - Real.log T1) + 0.000367 * (T2 - T1) := by
+  have hT1 : 0 < T1 := by linarith
+  have hT2 : 0 < T2 := by linarith
+  have hlogU := log_sub_le hT1 hT2
+  have hd : 0 ≤ T2 - T1 := by linarith
+  have ha : 1 / 235 ≤ 1 / T1 := by
+    rw [div_le_div_iff₀ (by norm_num) hT1]; linarith
+  have hb : 1 / 235 ≤ 1 / T2 := by
+    rw [div_le_div_iff₀ (by norm_num) hT2]; linarith
+  have eA : 6763.22 / T1 - 6763.22 / T2 = (T2 - T1) * (6763.22 * (1 / T1) * (1 / T2)) := by
+    field_simp
+  have eL : (T2 - T1) / T1 = (T2 - T1) * (1 / T1) := by ring
+  have hab : 6763.22 * (1 / T1) * (1 / 235) ≤ 6763.22 * (1 / T1) * (1 / T2) :=
+    mul_le_mul_of_nonneg_left hb (by positivity)
+  have hc : 0.1045 ≤ 6763.22 * (1 / T1) * (1 / T2) - 4.210 * (1 / T1) := by linarith
+  have hmul := mul_le_mul_of_nonneg_left hc hd
+  have hlog' : 4.210 * (Real.log T2 - Real.log T1) ≤ 4.210 * ((T2 - T1) * (1 / T1)) := by
+    rw [← eL]; exact mul_le_mul_of_nonneg_left hlogU (by norm_num)
+  rw [eA]
+  linarith
+
+/-- on [123, 235] the second bracket changes by at most `0.0253 (T₂ − T₁)` in either direction -/
+theorem gLiq_incr_low {T1 T2 : ℝ} (h1 : 123 ≤ T1) (h12 : T1 < T2) (h2 : T2 ≤ 235) :
+    -0.0253 * (T2 - T1) ≤ gLiq T2 - gLiq T1 ∧ gLiq T2 - gLiq T1 ≤ 0.0253 * (T2 - T1) := by
+  have hT1 : 0 < T1 := by linarith
+  have hT2 : 0 < T2 := by linarith
+  have hlogU := log_sub_le hT1 hT2
+  have hlogL := le_log_sub hT1 hT2
+  have hd : 0 ≤ T2 - T1 := by linarith
+  have hau : 1 / T1 ≤ 1 / 123 := by
+    rw [div_le_div_iff₀ hT1 (by norm_num)]; linarith
+  have hbu : 1 / T2 ≤ 1 / 123 := by
+    rw [div_le_div_iff₀ hT2 (by norm_num)]; linarith
+  have hb : 1 / 235 ≤ 1 / T2 := by
+    rw [div_le_div_iff₀ (by norm_num) hT2]; linarith
+  have ha0 : 0 ≤ 1 / T1 := by positivity
+  have hb0 : 0 ≤ 1 / T2 := by positivity
+  have eG : 1331.22 / T1 - 1331.22 / T2 = (T2 - T1) * (1331.22 * (1 / T1) * (1 / T2)) := by
+    field_simp
+  have eL1 : (T2 - T1) / T1 = (T2 - T1) * (1 / T1) := by ring
+  have eL2 : (T2 - T1) / T2 = (T2 - T1) * (1 / T2) := by ring
+  constructor
+  · have hab : 1331.22 * (1 / T1) * (1 / 235) ≤ 1331.22 * (1 / T1) * (1 / T2) :=
+      mul_le_mul_of_nonneg_left hb (by positivity)
+    have hL : -0.0253 ≤ 1331.22 * (1 / T1) * (1 / T2) - 9.44523 * (1 / T1) + 0.014025 := by linarith
+    have hmul := mul_le_mul_of_nonneg_left hL hd
+    have hlog' : 9.44523 * (Real.log T2 - Real.log T1) ≤ 9.44523 * ((T2 - T1) * (1 / T1)) := by
+      rw [← eL1]; exact mul_le_mul_of_nonneg_left hlogU (by norm_num)
+    unfold gLiq
+    linarith
+  · have hab : 1331.22 * (1 / T1) * (1 / T2) ≤ 1331.22 * (1 / 123) * (1 / T2) := by
+      have : 1331.22 * (1 / T1) ≤ 1331.22 * (1 / 123) := mul_le_mul_of_nonneg_left hau (by norm_num)
+      exact mul_le_mul_of_nonneg_right this hb0
+    have hU : 1331.22 * (1 / T1) * (1 / T2) - 9.44523 * (1 / T2) + 0.014025 ≤ 0.0253 := by linarith
+    have hmul := mul_le_mul_of_nonneg_left hU hd
+    have hlog' : 9.44523 * ((T2 - T1) * (1 / T2)) ≤ 9.44523 * (Real.log T2 - Real.log T1) := by
+      rw [← eL2]; exact mul_le_mul_of_nonneg_left hlogL (by norm_num)
+    unfold gLiq
+    linarith
+
+/-- pure arithmetic for the lower range: `tanh` of either sign -/
+theorem liq_assemble_low {d A t1 t2 g1 g2 : ℝ} (hd : 0 < d) (ht0 : -1 ≤ t2) (ht1 : t2 ≤ 1) (htm : t1 ≤ t2)
+    (htl : t2 - t1 ≤ 0.0415 * d) (hg1 : -1.25 ≤ g1) (hgl : -0.0253 * d ≤ g2 - g1) (hgu : g2 - g1 ≤ 0.0253 * d)
+    (hA : 0.1045 * d ≤ A) :
+    0 < A + (t2 * g2 - t1 * g1) := by
+  have hsplit : t2 * g2 - t1 * g1 = t2 * (g2 - g1) + g1 * (t2 - t1) := by ring
+  have hterm1 : -0.0253 * d ≤ t2 * (g2 - g1) := by
+    by_cases hs : 0 ≤ g2 - g1
+    · have : 0 ≤ (t2 + 1) * (g2 - g1) := mul_nonneg (by linarith) hs
+      nlinarith
+    · have hs' : g2 - g1 ≤ 0 := by linarith
+      have : (1 - t2) * (g2 - g1) ≤ 0 := mul_nonpos_of_nonneg_of_nonpos (by linarith) hs'
+      nlinarith
+  have hterm2 : -(1.25 * 0.0415) * d ≤ g1 * (t2 - t1) := by
+    have h0 : 0 ≤ t2 - t1 := by linarith
+    have h3 : 0 ≤ (g1 + 1.25) * (t2 - t1) := mul_nonneg (by linarith) h0
+    have h4 : 0 ≤ 1.25 * (0.0415 * d - (t2 - t1)) := mul_nonneg (by norm_num) (by linarith)
+    nlinarith
+  rw [hsplit]
+  nlinarith
+
 end Snow.EvapLemmas
